@@ -56,3 +56,31 @@ Proof.
   destruct (unpack_cells n missing v) as [cells|e] eqn:Ec; [|discriminate].
   intros H. inversion H; subst. exists v, cells. rewrite (unpack_keep_spec inc i r Hi). auto.
 Qed.
+
+(* map_rows f stops at the first error; when it runs to the end every output row is f of the source row at the same position *)
+Lemma map_rows_Forall2 (f : row -> res row) (rows o : list row) :
+  map_rows f rows = (o, None) -> Forall2 (fun r out => f r = Ok out) rows o.
+Proof.
+  revert o; induction rows as [|r t IH]; intros o; cbn [map_rows]; [intros H; inversion H; constructor|].
+  destruct (f r) as [y|e] eqn:Ey; [|discriminate]. destruct (map_rows f t) as [out e] eqn:Et.
+  intros H; inversion H; subst. constructor; [exact Ey|apply IH; reflexivity].
+Qed.
+
+(* the whole operator: the new fields are appended to the header, and row by row (same count, same order) the output is the
+   source row with the unpacked cells appended (and the unpacked cell dropped unless include_original) *)
+Theorem unpack_model_exact (field : val) (newfields : list val) (inc : bool) (missing : val) (hdr : row) (rows : list row)
+    (outt : table) :
+  unpack_model field newfields inc missing (hdr :: rows) = (outt, None) ->
+  exists i kept o, outt = (kept ++ newfields) :: o /\
+    Forall2 (fun r out => unpack_row inc i (length newfields) missing r = Ok out) rows o /\
+    (0 <= i -> Forall2 (fun r out => exists v cells, py_nth r i = Some v /\ unpack_cells (length newfields) missing v = Ok cells /\
+                          out = (if inc then r else firstn (Z.to_nat i) r ++ skipn (S (Z.to_nat i)) r) ++ cells) rows o).
+Proof.
+  unfold unpack_model.
+  match goal with |- match ?fi with _ => _ end = _ -> _ => destruct fi as [i|]; [|discriminate] end.
+  destruct (map_rows (unpack_row inc i (length newfields) missing) rows) as [o e] eqn:Em.
+  intros H; inversion H; subst; clear H. apply map_rows_Forall2 in Em.
+  eexists i, _, o. split; [reflexivity|]. split; [exact Em|]. intros Hi.
+  induction Em as [|r out rs os Hr _ IH]; constructor; [|exact IH].
+  exact (unpack_row_frame inc i (length newfields) missing r out Hi Hr).
+Qed.
